@@ -12,7 +12,8 @@ RULE = ('kept chunks: every (number of bounds, n_chunks_kept) pair of the tier o
         'n_chunks_kept; then a seeded random stream (unsorted times, duplicate and unknown ids, subsets with '
         'repeats and foreign ids, negative counts). Every call that may sub-sample is repeated under 5 NumPy '
         'seeds; array dtypes/containers (int64, uint64, int32, float64 on a half-integer scale, list/array '
-        'arguments) are multiplied in on the implementation side. Non-trivial = the call returns at least one '
+        'arguments; keyword arguments left at their defaults in every other configuration) are multiplied in on the '
+        'implementation side. Non-trivial = the call returns at least one '
         'spike (kept: at least two chunks in the grid); distinct = distinct abstract input.')
 EXHAUSTIVE = {'quick': True, 'thorough': True}
 CLAUSES = {
@@ -24,6 +25,8 @@ CLAUSES = {
     24: 'C17_select + C17_parity (every returned id lies in a kept chunk [a, b) when the chunk restriction is on)',
     25: 'C17_select (every returned id is in the requested spike subset)',
     26: 'C17_select (per requested cluster: all eligible spikes, or exactly the requested count)',
+    27: 'C17_kept_densest (kept chunks = the densest regular selection from the first chunk that fits in '
+        'n_chunks_kept: the stride is the least one keeping <= n_chunks_kept chunks, ceil(n_chunks / n_chunks_kept))',
 }
 TRUSTED = ['np.random.choice(ids, n, replace=False) returns n distinct members of ids (oracle hypothesis of the '
            'theorems; the draws themselves are judged relationally)',
@@ -251,6 +254,20 @@ def _run_route(i):
         shutil.rmtree(d, ignore_errors=True)
 
 
+def _omit_defaults(i):
+    # odd configurations rely on the defaults of __call__ (subset_chunks=False, subset_spikes=None)
+    return i.get('cfg', 0) % 2 == 1
+
+
+def _call_kwargs(i, sub):
+    kw = {}
+    if i['sc'] or not _omit_defaults(i):
+        kw['subset_chunks'] = i['sc']
+    if sub is not None or not _omit_defaults(i):
+        kw['subset_spikes'] = sub
+    return kw
+
+
 def run_case(case):
     import numpy as np
     k, i = case['kind'], case['inp']
@@ -266,9 +283,10 @@ def run_case(case):
         sub = np.array(sub, dtype=np.int64)
     results = []
     seeds = SEEDS if (i['n'] is not None and i['n'] > 0) else SEEDS[:1]
+    kw = _call_kwargs(i, sub)
     for s in seeds:
         np.random.seed(s)
-        out = ss(i['n'], req, subset_chunks=i['sc'], subset_spikes=sub)
+        out = ss(i['n'], req, **kw)
         out = np.asarray(out)
         if out.ndim != 1 or out.dtype.kind not in 'iu':
             raise RuntimeError('selection is not a 1-D integer array: %r %r' % (out.dtype, out.shape))
@@ -373,8 +391,11 @@ def shrink(case):
         j.update(kw)
         return {'kind': k, 'inp': j}
     if k == 'route':
+        # not below the generator's minimum of 3 spikes: a one-spike dataset does not load at all
+        # (TemplateModel._load_spike_samples asserts ndim == 1 on the squeezed array), which would turn the
+        # shrunk replay of a genuine failure into an unrelated loader crash
         for nspk in sorted({i['nspk'] // 2, i['nspk'] - 1}):
-            if 1 <= nspk < i['nspk']:
+            if 3 <= nspk < i['nspk']:
                 yield mk(nspk=nspk)
         if i['nst'] > 1:
             yield mk(nst=i['nst'] - 1)
@@ -432,6 +453,7 @@ def repro(case):
             "                   spike_times=np.array(%r), chunk_bounds=%r, n_chunks_kept=%r)\n"
             "print('chunks_kept', ss.chunks_kept)\n" % (i.get('clusters', []), i.get('times', []), i['grid'], i['k']))
     if k == 'select':
+        kw = ''.join(', %s=%r' % kv for kv in _call_kwargs(i, i['sub']).items())
         body += ("for seed in range(5):\n    np.random.seed(seed)\n"
-                 "    print(ss(%r, %r, subset_chunks=%r, subset_spikes=%r))\n" % (i['n'], i['req'], i['sc'], i['sub']))
+                 "    print(ss(%r, %r%s))\n" % (i['n'], i['req'], kw))
     return pre + body + "# implementation-side configuration used by the harness: %r\n" % (CFGS[i.get('cfg', 0)],)
